@@ -100,6 +100,14 @@ func runC18(r *simkit.Run) {
 		cfg.HardGCs = cfg.SoftGCs
 	}
 	cfg.SpikeMiB = cfg.LimitMiB * []int{10, 20, 50}[tp.Draw(3)] / 100
+	if tp.Chance(1, 5) {
+		// large fixed limits: the MiB values are 32-bit in the configuration, the byte values are not
+		cfg.LimitMiB = []int{4097, 10240, 65536, 1 << 22, 1<<32 - 1}[tp.Draw(5)]
+		cfg.SpikeMiB = cfg.LimitMiB / 100 * []int{10, 20, 50}[tp.Draw(3)]
+		if sp := []int{0, 4095, 4096, 4097, 5120, 8192, 12288}[tp.Draw(7)]; sp > 0 && sp < cfg.LimitMiB {
+			cfg.SpikeMiB = sp
+		}
+	}
 	cfg.TotalMiB = 2000
 	var pctLimit, pctSpike uint32
 	if cfg.Percent {
